@@ -16,7 +16,7 @@ from sim.common import Stats
 ID = "C12"
 LEVEL = "exploration"
 DEFAULT_SEED = 1212
-BATCH = 64
+BATCH = 4
 TASK_TIMEOUT = 600
 WALL_CAP = {"quick": 100, "thorough": 2400}
 RULE = (
